@@ -33,6 +33,12 @@ type c10Case struct {
 	// TplAnnots: the pod template itself carries the controller's bookkeeping annotations with stale values (a template
 	// copied from a running pod): nodehash and templatehash
 	TplAnnots bool `json:"template_carries_stale_hash_annotations,omitempty"`
+	// TplNodeName: the pod template itself names a node in spec.nodeName (copied from a running pod): the pod still goes to
+	// the node it is created for, in both assignment modes
+	TplNodeName bool `json:"template_carries_a_nodeName,omitempty"`
+	// TplOwner: the pod template's metadata carries a controller owner reference of its own (copied from a pod of another
+	// controller): the replica set cannot be made the controller, so no pod may be created at all
+	TplOwner bool `json:"template_carries_a_controller_owner_reference,omitempty"`
 }
 
 func c10Cases() []c10Case {
@@ -48,6 +54,10 @@ func c10Cases() []c10Case {
 									out = append(out, c10Case{Containers: nc, TplRes: tr, Affinity: af, NodeSel: ns, Toleration: tol, NodeAnnot: na, Setting: st, Affin: mode})
 									if af == "none" && !tol {
 										out = append(out, c10Case{Containers: nc, TplRes: tr, Affinity: af, NodeSel: ns, Toleration: tol, NodeAnnot: na, Setting: st, Affin: mode, TplAnnots: true})
+									}
+									if !tol && !tr && nc == 1 && na == "absent" && st == "none" {
+										out = append(out, c10Case{Containers: nc, TplRes: tr, Affinity: af, NodeSel: ns, Toleration: tol, NodeAnnot: na, Setting: st, Affin: mode, TplNodeName: true})
+										out = append(out, c10Case{Containers: nc, TplRes: tr, Affinity: af, NodeSel: ns, Toleration: tol, NodeAnnot: na, Setting: st, Affin: mode, TplOwner: true})
 									}
 								}
 							}
@@ -71,6 +81,13 @@ func c10Template(c c10Case, image string) corev1.PodTemplateSpec {
 			t.Labels = map[string]string{}
 		}
 		t.Labels[v1.ExtendedDaemonSetSettingNameLabelKey], t.Labels[v1.ExtendedDaemonSetSettingNamespaceLabelKey] = "a-setting-of-long-ago", "ns"
+	}
+	if c.TplNodeName {
+		t.Spec.NodeName = "a-node-of-long-ago"
+	}
+	if c.TplOwner {
+		tr := true
+		t.OwnerReferences = []metav1.OwnerReference{{APIVersion: "apps/v1", Kind: "DaemonSet", Name: "legacy", UID: "uid-legacy", Controller: &tr}}
 	}
 	if c.Containers == 2 {
 		t.Spec.Containers = append(t.Spec.Containers, corev1.Container{Name: "side", Image: "sidecar"})
@@ -232,6 +249,14 @@ func c10Eval(t *testing.T, run *h.Run, c c10Case) {
 				viol("C10/eligible: pod created for a node the template excludes", "")
 			}
 			run.Nontrivial("ineligible:" + c.Affinity)
+			return
+		}
+		if c.TplOwner {
+			// "is owned by its replica set": a pod that cannot be is not created
+			if len(creates) != 0 {
+				viol("C10/owner: a pod that cannot be controlled by its replica set (the template carries a controller owner reference) is created all the same", fmt.Sprint(creates[0].OwnerReferences))
+			}
+			run.Nontrivial("unbuildable")
 			return
 		}
 		if len(creates) != 1 {
